@@ -12,6 +12,7 @@ mod glob_w;
 mod twins;
 mod plan_w;
 mod patch_w;
+mod engine_w;
 /// the CLI's modules, #[path]-included unedited from the tree under check
 #[allow(dead_code, unused_imports, clippy::all)]
 pub mod cli {
@@ -69,6 +70,12 @@ fn search(contract: &str, seed: u64, budget: u64) -> i32 {
         let rc = twins::is_excluded(seed, budget.min(10));
         return rc;
     }
+    if c == "roundtrip" || c.ends_with("::delta") || c.ends_with("::signature") {
+        return engine_w::search_pairs(false, seed, budget, false);
+    }
+    if c == "greedy" {
+        return engine_w::search_pairs(true, seed, budget, false);
+    }
     if c.ends_with("::patch") {
         return patch_w::search(c, seed, budget);
     }
@@ -89,6 +96,9 @@ fn run(w: &str) -> i32 {
         "checksum-ops" => checksum_w::run_ops(w),
         "glob" => glob_w::run(w),
         "patch" => patch_w::run(w),
+        "pair" => engine_w::run_pair(w),
+        "siggen" => engine_w::run_siggen(w),
+        "sigtable" => { println!("re-run: copia-replay twin signature_table <seed> 1"); 1 }
         "reconcile" => plan_w::run_reconcile(w),
         "build_plan" => plan_w::run_plan(w),
         "is_excluded" => twins::run_is_excluded(w),
@@ -103,6 +113,9 @@ fn run(w: &str) -> i32 {
 fn twin(name: &str, seed: u64, budget: u64) -> i32 {
     match name {
         "is_excluded" => twins::is_excluded(seed, budget),
+        "signature_generate" => engine_w::twin_signature_generate(seed, budget),
+        "signature_table" => engine_w::twin_signature_table(seed, budget),
+        "engines_agree" => engine_w::search_pairs(false, seed, budget, true),
         "parse_remote_meta_output" => twins::parse_meta(seed, budget),
         _ => {
             eprintln!("unknown twin {name}");
